@@ -269,6 +269,17 @@ def make_layout(rng, volumes=None, home_own_volume=None, uid=None, xdg=None,
             items = [x + '/' if rng.random() < 0.3 else x for x in items]
             rng.shuffle(items)
         L.env['TRASH_VOLUMES'] = ':'.join(items)
+    if len(L.mounts) > 1 and rng.random() < 0.2:
+        # volumes that are not local disks: network, fuse and WSL file systems
+        # are volumes too (the root keeps a physical type)
+        ft = {}
+        for m in L.mounts:
+            if m and rng.random() < 0.6:
+                ft[m] = rng.choice(['nfs', 'nfs4', 'p9', 'fuse', 'fuse.mergerfs',
+                                    'fuse.gocryptfs', 'fuse.glusterfs', 'btrfs',
+                                    'xfs', 'vfat'])
+        if ft:
+            L.extra['fstypes_rel'] = ft
     if len(L.mounts) > 1 and rng.random() < 0.15:
         # the table of mounted file systems lists a mount point twice (two
         # devices / bind mounts on one directory) and in no particular order
